@@ -125,3 +125,32 @@ async fn new_session_insert_sync_finalize() {
     println!("new session insert+sync+finalize: {:?}", r.as_ref().map(|c| c.is_some()).map_err(|e| format!("{e:?}")));
     assert!(r.is_ok(), "WITNESS-E");
 }
+
+#[tokio::test]
+async fn server_insert_on_client_only_session() {
+    use pavex_session::config::{MissingServerState, ServerStateCreation};
+    let store = SessionStore::new(InMemorySessionStore::new());
+    let mut config = SessionConfig::default();
+    config.state.server_state_creation = ServerStateCreation::SkipIfEmpty;
+    config.state.missing_server_state = MissingServerState::Allow;
+    let mut s1 = Session::new(&store, &config, None);
+    s1.client_mut().insert("c", 1).unwrap();
+    let c1 = s1.finalize().await.unwrap().expect("cookie");
+    let mut s2 = Session::new(&store, &config, Some(incoming(&c1)));
+    s2.insert("k", "v").await.unwrap();
+    let r = s2.finalize().await;
+    println!("server insert on client-only session: {:?}", r.as_ref().map(|c| c.is_some()).map_err(|e| format!("{e:?}")));
+    assert!(r.is_ok(), "WITNESS-G: finalize fails after a server-side insert on an existing session that has no server record");
+}
+
+#[tokio::test]
+async fn new_session_client_insert_sync_finalize() {
+    let store = SessionStore::new(InMemorySessionStore::new());
+    let config = SessionConfig::default();
+    let mut s1 = Session::new(&store, &config, None);
+    s1.client_mut().insert("c", 1).unwrap();
+    s1.sync().await.expect("first sync");
+    let r = s1.finalize().await;
+    println!("new session client insert+sync+finalize: {:?}", r.as_ref().map(|c| c.is_some()).map_err(|e| format!("{e:?}")));
+    assert!(r.is_ok(), "WITNESS-F");
+}
